@@ -1,4 +1,5 @@
 import Uft.Lemmas.Trunc
+import Uft.Lemmas.TextFiles
 /-
 C12 — Analysis commands survive truncated or partially written data.
 Property theorems only (helpers: Lemmas/Trunc.lean, Lemmas/TextFiles.lean).
@@ -7,7 +8,8 @@ Part 1: the per-task trace data (`<tid>.dat`), model Uft/Model/Trunc.lean.
 `readAll true` is the reader with proposed_fixes/C12-F7.diff, C12-S4.diff, C12-F14.diff applied,
 `readAll false` the reader as found.
 -/
-namespace Uft.Trunc
+namespace Uft.C12
+open Uft.Trunc
 
 /-- C12 main statement for trace data: for every list of well-formed records (payloads of any
     size: string arguments, fixed-size arguments, events) and EVERY cut position `k`, the
@@ -128,4 +130,123 @@ theorem c12_prefix_partial_payload_witness :
     (readAll true ctxW cut).1 = recsW.take 1 := by
   decide +kernel
 
-end Uft.Trunc
+
+/-!
+Part 2: the text files (`info`, `task.txt`, `sid-*.map`, `*.sym`), models Uft/Model/InfoFile.lean
+and Uft/Model/TaskTxt.lean.  `fixed = true`: with proposed_fixes/C12-F8, -S2, -F8t, -F8s, -F13,
+-F12, -S3, -F16, -F17 applied.
+-/
+open Uft.TextScan (b PR)
+open Uft.InfoFile (parseInfo)
+open Uft.TaskTxt (parseTaskTxt parseMap parseSym chromeHeader replayNamesOk isKernel Maps)
+
+/-- Every text parser of a data directory, with the proposed fixes, is total and in bounds on
+    EVERY byte string (so in particular on every cut of every file): it returns a value or an
+    error enum, never `oob`.  The last conjunct is the `dump --chrome` header walk over the tids
+    of `info` against whatever task list was parsed. -/
+theorem c12_parsers_total_in_bounds (bs modname : List UInt8) :
+    (parseInfo true bs).isOob = false ∧ (parseTaskTxt true bs).isOob = false ∧
+    (parseMap true bs).isOob = false ∧ (parseSym true modname bs).isOob = false ∧
+    (∀ items tids, (chromeHeader true items tids).isOob = false) ∧
+    (∀ ls, replayNamesOk true ls = true) :=
+  ⟨InfoFile.parseInfo_safe bs, TaskTxt.parseTaskTxt_safe bs, TaskTxt.parseMap_safe bs,
+   TaskTxt.parseSym_safe modname bs, TaskTxt.chromeHeader_safe, fun _ => rfl⟩
+
+/-- With C12-F12.diff a map file never makes a user-space address a kernel address: the kernel
+    base is either the writer's "none" value or one of `guess_kernel_base`'s, all ≥ 1 GiB —
+    whatever bytes the map file holds (cut before the `[stack]` line or anywhere else). -/
+theorem c12_map_kernel_base_sane (bs : List UInt8) (m : Maps) (h : parseMap true bs = .ok m) :
+    0x40000000 ≤ m.kernelBase ∧ ∀ a, a < 0x40000000 → isKernel m a = false := by
+  have hk := TaskTxt.mapLines_kb _ h (by decide)
+  refine ⟨hk, fun a ha => ?_⟩
+  simp only [isKernel, decide_eq_false_iff_not, Nat.not_le]
+  omega
+
+/-- non-vacuity: the repaired reader on a map file without `[stack]` line succeeds, with the
+    writer's "no kernel" base -/
+example : (match parseMap true (b "400000-402000 r-xp 00000000 00:00 0     /p\n") with
+    | .ok m => m.kernelBase == 2 ^ 64 - 1 && m.maps.length == 1
+    | _ => false) = true := by decide +kernel
+
+/-! ### the findings as theorems about the parsers as found -/
+
+def hdr40 (mask : Nat) : List UInt8 :=
+  InfoFile.magic ++ [4, 0, 0, 0, 40, 0, 1, 2] ++ Uft.Trunc.leBytes 8 0x1263 ++ Uft.Trunc.leBytes 8 mask ++
+    [0, 4, 0, 0, 0, 0, 0, 0]
+
+/-- F8 witness: `info` cut right after `exename:` — `copy_info_str` reads `dst[-1]`;
+    the repaired reader reports the failing section instead. -/
+theorem c12_prefix_info_key_cut_witness :
+    (parseInfo false (hdr40 1 ++ b "exename:")).isOob = true ∧
+    (parseInfo true (hdr40 1 ++ b "exename:")).isOob = false ∧
+    (parseInfo false (hdr40 1 ++ b "exename:/p\n")).isOob = false := by
+  decide +kernel
+
+/-- S2 witness: the `tids=` fill writes `tids[nr_tid]`: a zero-task `info` cut right after
+    `taskinfo:tids=`, and an `info` listing more tids than `nr_tid`. -/
+theorem c12_prefix_tids_overflow_witness :
+    (parseInfo false (hdr40 128 ++ b "taskinfo:lines=2\ntaskinfo:nr_tid=0\ntaskinfo:tids=")).isOob = true ∧
+    (parseInfo false (hdr40 128 ++ b "taskinfo:lines=2\ntaskinfo:nr_tid=1\ntaskinfo:tids=5,6\n")).isOob = true ∧
+    (parseInfo false (hdr40 128 ++ b "taskinfo:lines=2\ntaskinfo:nr_tid=2\ntaskinfo:tids=5,6\n")).isOob = false := by
+  decide +kernel
+
+/-- F8t witness: task.txt cut right after `exename=`, or after a bare tag. -/
+theorem c12_prefix_tasktxt_cut_witness :
+    (parseTaskTxt false (b "SESS timestamp=1.2 pid=1 sid=abc exename=")).isOob = true ∧
+    (parseTaskTxt false (b "TASK timestamp=1.2 tid=5 pid=5\nTASK")).isOob = true ∧
+    (parseTaskTxt false (b "SESS timestamp=1.2 pid=1 sid=abc exename=\"")).isOob = false := by
+  decide +kernel
+
+/-- S3 witness: `sid=%s` without a width leaves the message struct for a long token. -/
+theorem c12_prefix_scanf_width_witness :
+    (parseTaskTxt false (b "SESS timestamp=1.2 pid=1 sid=0123456789012345678901234 exename=\"x\"")).isOob = true ∧
+    (parseMap false (b "400000-402000 r-xpp 00000000 00:00 0 /p\n")).isOob = true := by
+  decide +kernel
+
+/-- F8s / F13 witnesses: a `.sym` file cut right after `# path name: `, and a symbol line cut
+    right before the type. -/
+theorem c12_prefix_symfile_cut_witness :
+    (parseSym false (b "/p") (b "# path name: ")).isOob = true ∧
+    (parseSym false (b "/p") (b "# path name: /p\n0000000000001000 00000100 ")).isOob = true ∧
+    (parseSym false (b "/p") (b "# path name: /p\n0000000000001000 00000100")).isOob = false := by
+  decide +kernel
+
+/-- F12 witness: the reader as found, on a map file without `[stack]` line, makes the user
+    address 0x401000 a kernel address. -/
+theorem c12_prefix_map_kernel_witness :
+    (match parseMap false (b "400000-402000 r-xp 00000000 00:00 0     /p\n") with
+     | .ok m => isKernel m 0x401000
+     | _ => false) = true ∧
+    (match parseMap true (b "400000-402000 r-xp 00000000 00:00 0     /p\n") with
+     | .ok m => isKernel m 0x401000
+     | _ => true) = false := by
+  decide +kernel
+
+/-- F16 / F17 witnesses: a tid of `info` without TASK/FORK line, an empty symbol name. -/
+theorem c12_prefix_null_task_witness :
+    (chromeHeader false [.sess 1 101 [] [], .task 2 101 101] [101, 103]).isOob = true ∧
+    replayNamesOk false [⟨0x1000, 0x40, 84, []⟩] = false := by
+  decide +kernel
+
+/-- F7 (header part) witness: a cut inside the NEXT record's header changes `task->ustack`
+    in the code as found (report/graph close open calls at that time); not in the repaired one. -/
+theorem c12_prefix_header_leak_witness :
+    (readAll false ctxW ((encodeAll recsW).take 153)).1 = (readAll true ctxW ((encodeAll recsW).take 153)).1 ∧
+    (readAll false ctxW ((encodeAll recsW).take 153)).2.2 ≠ lastHdr (recsW.take 5) ∧
+    (readAll true ctxW ((encodeAll recsW).take 153)).2.2 = lastHdr (recsW.take 5) := by
+  decide +kernel
+
+/-- F14 witness: the raw `dump` consumer on the complete 2-character string "ok". -/
+theorem c12_prefix_raw_short_string_witness :
+    (recsW.map (consumeOk false true ctxW)) = [true, true, true, true, false, true, true] ∧
+    (recsW.map (consumeOk true true ctxW)) = [true, true, true, true, true, true, true] := by
+  decide +kernel
+
+/-- S4 witness: a watch event whose length field is 4 (< 8): `len -= 8` wraps in uint16_t. -/
+theorem c12_prefix_watch_len_witness :
+    let bs := encHdr { time := 1, typ := 3, more := true, depth := 0, addr := watchVarId, payload := [] } ++
+      leBytes 2 4 ++ zeros 16
+    (readAll false ctxW bs).2.1 = .oob ∧ (readAll true ctxW bs).2.1 = .badEvent := by
+  decide +kernel
+
+end Uft.C12
